@@ -106,12 +106,57 @@ func GenOps(r *vh.Rand, n, m int, crash bool) []string {
 	for i := 0; i < m; i++ {
 		var op string
 		x := r.Intn(100)
+		if crash && r.Chance(1, 14) { // corrupt the store: index entry without record (repair branch)
+			c, md := pinnedOr(guessR, 1, 1), 0
+			if r.Chance(1, 3) {
+				c, md = pinnedOr(guessD, 1, 1), 1
+			}
+			ops = append(ops, fmt.Sprintf("plant %d %d", c, md))
+			if r.Bool() { // and hit it at once
+				ops = append(ops, vh.Pick(r, []string{
+					fmt.Sprintf("crashall unpin %d 1 ok", c),
+					fmt.Sprintf("crashall pin %d 1 %d ok", c, r.Intn(4)),
+					fmt.Sprintf("crashall pinmode %d %d %d ok", c, r.Intn(2), r.Intn(4))}))
+			}
+			continue
+		}
 		if r.Chance(1, 12) { // autoSync off/on, explicit Flush
 			op := vh.Pick(r, []string{"autosync 0", "autosync 0", "autosync 1", "flush", "flush"})
 			if crash {
 				op = "crashall " + op
 			}
 			ops = append(ops, op)
+			continue
+		}
+		if !crash && r.Chance(1, 10) { // a second call inside the fetch window of a recursive Pin / an Update
+			var a string
+			var foc []int
+			if r.Bool() {
+				c := cidOf()
+				a = fmt.Sprintf("pin %d 1 %d ok", c, r.Intn(4))
+				foc = []int{c}
+			} else {
+				from, to := pinnedOr(guessR, 4, 5), cidOf()
+				a = fmt.Sprintf("update %d %d %d ok", from, to, r.Intn(2))
+				foc = []int{from, to}
+			}
+			bc := cidOf()
+			if r.Chance(3, 4) {
+				bc = vh.Pick(r, foc)
+			}
+			var b string
+			switch r.Intn(5) {
+			case 0:
+				b = fmt.Sprintf("pin %d %d %d ok", bc, r.Intn(2), r.Intn(4))
+			case 1:
+				b = fmt.Sprintf("pinmode %d %d %d ok", bc, r.Intn(2), r.Intn(4))
+			case 2, 3:
+				b = fmt.Sprintf("unpin %d 1 ok", bc)
+			default:
+				b = fmt.Sprintf("update %d %d %d ok", bc, cidOf(), r.Intn(2))
+			}
+			ops = append(ops, "nested "+a+" ;; "+b, "q")
+			guessR[foc[len(foc)-1]] = true
 			continue
 		}
 		if i < 2 && r.Chance(3, 4) {
@@ -175,7 +220,11 @@ func GenOps(r *vh.Rand, n, m int, crash bool) []string {
 			continue
 		}
 		if crash {
-			if r.Chance(1, 4) {
+			if r.Chance(1, 8) {
+				op = fmt.Sprintf("crash2 %d %d %s", r.Intn(9), r.Intn(5), op)
+			} else if r.Chance(1, 6) {
+				op = fmt.Sprintf("io %d %s", r.Intn(9), op)
+			} else if r.Chance(1, 4) {
 				op = fmt.Sprintf("crashat %d %s", r.Intn(9), op)
 			} else {
 				op = "crashall " + op
